@@ -7,6 +7,7 @@ each with debug logging off and on; outcomes must be related exactly as the
 statement says.  Deep snapshots show the inputs are not altered.  icontract
 post-condition on the real Enforcer.enforce: do_raise never yields a falsy
 return."""
+import json
 import copy
 
 from pv.core import env
@@ -22,14 +23,14 @@ RULE = ('cases = (rule set from the expression generator + fixed always-allow/de
         'credentials (role subsets, scope fields, non-JSON values: bytes, sets, objects, passwords) x targets (nested, '
         'opaque objects) x {plain, do_raise, do_raise+custom class+args} x {enforce, authorize} x debug logging off/on. '
         'Non-trivial = the plain decision is falsy (so the raising modes must raise) or a scope mismatch applies; '
-        'distinct = distinct (rules, rule, target, creds) triple.')
+        'distinct = distinct (rules, rule, target, creds) triple. Stratum `overlap`: two requests on one enforcer at the same time in different modes with different exception arguments (second one runs at sampled line boundaries of the first, deterministic scheduler): each outcome is that of the request alone.')
 ASSUMPTIONS = ['the documented mirroring of system_scope into system is the only permitted change to the credentials',
                'the message of PolicyNotAuthorized "names the policy" = contains str(rule) for rules given by name']
 LEVEL_TEXT = ('Seeded sampling of triples, each enforced in 12 mode combinations by the real code and related pairwise; the '
               'suite never relates two modes on one input.')
 LEVEL_NOTE = 'trusted: the mode-relation oracle transcribed from the statement; copy.deepcopy for fresh inputs per call'
 PLAN = {'quick': dict(shards=4, wall=60), 'thorough': dict(shards=16, wall=400)}
-MIN = {'evaluations': 1000, 'falsy_plain': 300, 'truthy_plain': 300, 'custom_exceptions_seen': 200,
+MIN = {'overlapping_evaluations': 200, 'evaluations': 1000, 'falsy_plain': 300, 'truthy_plain': 300, 'custom_exceptions_seen': 200,
        'invalid_scope_seen': 20, 'not_registered_seen': 100, 'debug_on_triples': 300, 'empty_ruleset_triples': 50}
 ANCHORS = ['oslo_policy.policy:Enforcer.enforce', 'oslo_policy.policy:Enforcer.authorize',
            'oslo_policy.policy:Enforcer._enforce_scope']
@@ -349,6 +350,61 @@ def check_case(ctx, worlds, case):
         ctx.violation('do_raise-returns-falsy', case, {'contract': cname, 'observed': info})
 
 
+OVERLAPS = {'quick': 10, 'thorough': 200}
+MODES = ['plain', 'raise', 'custom', 'authorize-plain', 'authorize-custom']
+
+
+def check_overlap(ctx, worlds, case):
+    """Two requests on one enforcer at the same time, each in its own mode and with its own exception arguments: the outcome
+    of each (value returned; class, positional and keyword arguments of what was raised) is that of the request alone."""
+    from pv.mon import overlap
+    w = worlds[True]
+    w.install({})
+
+    def mk(req):
+        def make():
+            c, t = json.loads(json.dumps(req['creds'])), dict(req['target'])
+            args, kwargs, mode = tuple(req['exc_args']), dict(req['exc_kwargs']), req['mode']
+            fn = w.enf.authorize if mode.startswith('authorize') else w.enf.enforce
+
+            def run_():
+                try:
+                    if mode.endswith('plain'):
+                        return ['returned', bool(fn(req['rule'], t, c))]
+                    if mode == 'raise':
+                        return ['returned', bool(fn(req['rule'], t, c, do_raise=True))]
+                    return ['returned', bool(fn(req['rule'], t, c, True, CustomDenied, *args, **kwargs))]
+                except CustomDenied as e:
+                    return ['raised', 'CustomDenied', list(e.a), dict(e.k)]
+                except Exception as e:
+                    return ['raised', type(e).__name__, str(e)[:120]]
+            return run_
+        return make
+    a, b = case['a'], case['b']
+    ctx.case(['overlap', a, b], True, 'overlap')
+    if overlap.pair(ctx, mk(a), mk(b), case, {'request_a': a, 'request_b': b}, ctx.sub_rnd('Ob', case['rseed'])):
+        # the sequential outcomes themselves: a raised custom exception carries exactly the caller's arguments
+        for req in (a, b):
+            got = mk(req)()()
+            if got[0] == 'raised' and got[1] == 'CustomDenied' and (got[2] != list(req['exc_args']) or got[3] != dict(req['exc_kwargs'])):
+                ctx.violation('custom-exception-arguments-lost', case, {'request': req, 'observed': got})
+
+
+def gen_overlap(ctx, i):
+    r = ctx.sub_rnd('O', ctx.tier, ctx.shard, i)
+    reqs = []
+    for _ in range(2):
+        g = gen_case(r)
+        creds = {k: v for k, v in g['creds'].items() if k in ('roles', 'system_scope', 'domain_id', 'project_id', 'tenant_id')}
+        mode = r.choice(MODES)
+        rule = r.choice(['allow', 'deny', 'rx', 'nrx', 'owner', 'cnt', 'sys_only', 'proj_only', 'sys_deny', 'ghost'])
+        if mode.startswith('authorize') and r.random() < 0.7:
+            rule = r.choice(['rx', 'deny', 'cnt', 'sys_only', 'proj_only', 'sys_deny'])
+        reqs.append(dict(rule=rule, mode=mode, creds=creds, target={'tenant_id': r.choice(['t1', 't2'])},
+                         exc_args=g['exc_args'], exc_kwargs=g['exc_kwargs']))
+    return dict(overlap=True, a=reqs[0], b=reqs[1], rseed='%s.%d.%d' % (ctx.tier, ctx.shard, i))
+
+
 def describe(v):
     if v[0] == 'ret':
         return 'returns %r' % (v[1],) if isinstance(v[1], (bool, int, str, float, type(None), list, dict)) else 'returns <%s>' % type(v[1]).__name__
@@ -379,6 +435,16 @@ def run(ctx):
                                   {'creds_type': type(bad).__name__, 'observed': describe(o)})
         for k, v in contracts.EVALS.items():
             ctx.count('contract_evals.' + k, v)
+        # two overlapping requests, last (the line-level scheduler slows everything that runs after it is installed)
+        from pv.mon import sched
+        ctx.stratum('overlap', exhaustive=False)
+        try:
+            for i in range(OVERLAPS[ctx.tier]):
+                if ctx.expired():
+                    break
+                check_overlap(ctx, worlds, gen_overlap(ctx, i))
+        finally:
+            sched.uninstall()
     finally:
         for w in worlds.values():
             w.close()
@@ -390,6 +456,8 @@ def replay(ctx, case):
     try:
         if case.get('special'):
             return
+        if case.get('overlap'):
+            return check_overlap(ctx, worlds, case)
         check_case(ctx, worlds, case)
     finally:
         for w in worlds.values():
